@@ -1,7 +1,7 @@
 T = "GeomV.C02."
 CFG = {
     "id": "C02",
-    "lean_modules": ["GeomV.C02.Proofs", "GeomV.C02.Ties", "GeomV.C02.ProofsFloat", "GeomV.C02.IEEE", "GeomV.C02.TiesLoops", "GeomV.C02.ProofsIEEE", "GeomV.C02.ProofsNaN", "GeomV.C02.ProofsXF"],
+    "lean_modules": ["GeomV.C02.Proofs", "GeomV.C02.Ties", "GeomV.C02.ProofsFloat", "GeomV.C02.IEEE", "GeomV.C02.TiesLoops", "GeomV.C02.ProofsIEEE", "GeomV.C02.ProofsNaN", "GeomV.C02.ProofsXF", "GeomV.C02.ProofsOvf"],
     "exe": "geomv_c02",
     "go_cmd": "c02",
     "stages": ["go:gen", "go:impl", "lean:judge"],
@@ -18,7 +18,10 @@ CFG = {
                                  "C02_float_point_regenerated", "C02_ieee_point_exact_on_scaled_grid",
                                  "C02_ieee_ray_exact_on_scaled_grid", "C02_ieee_onSegment_exact_on_scaled_grid",
                                  "C02_nan_query_outside", "C02_inf_query_outside", "C02_nan_vertex_ring_ignored",
-                                 "C02_xf_finite_eq_model", "C02_xf_finite_spec"]],
+                                 "C02_xf_finite_eq_model", "C02_xf_finite_spec",
+                                 "C02_tie_GenOL_loops", "C02_overflow_breaks_within", "C02_overflow_misses_onEdge",
+                                 "C02_overflow_false_onEdge", "C02_overflow_false_inside", "C02_no_overflow_sub",
+                                 "C02_no_overflow_pointSubtract"]],
     "lean_dirs": ["C02"],
     "trusted_base": [
         "Lean 4.33.0 kernel; axioms of every theorem printed by #print axioms must be within {propext, Classical.choice, Quot.sound}",
@@ -85,6 +88,14 @@ def pregen(check):
     """T1: regenerate Gen.lean from the Go source of the tree under test (written only when it changed)"""
     import os, subprocess
     import vcheck
+    # the `pt ovf-*` family (coordinates near 2^1023: differences overflow) fires on the unchanged tree; its known finding
+    # lives in findings/C02.json and reaches the run through the shared KNOWN_FINDINGS.json (bin/mkfindings). Until that
+    # table carries the entry the family is not generated (and the run says so); afterwards it is on for good.
+    have = any(k.get("property") == "C02" and k.get("kind") == "known" and "pt-ovf" in k.get("signature", "")
+               for k in vcheck.load_known())
+    vcheck.GOENV["C02_OVF"] = "1" if have else "0"
+    if not have:
+        vcheck.log("C02: pt ovf-* lines OFF: KNOWN_FINDINGS.json has no C02 overflow entry yet (run bin/mkfindings)")
     ok, gobin, out = vcheck.go_build("c02", check.rundir)
     if not ok:
         return  # reported as a broken tie by the harness build of the main flow
